@@ -11,6 +11,7 @@ RULE = (
     "bit-mask reference (all pairs for small m, random elements above), law-level checks that do not trust the library's modulus (irreducibility, order of the designated "
     "primitive element from the factorisation of 2^m-1), all triples for m<=4/5 (associativity, distributivity), minimal polynomials against cyclotomic-coset products. "
     "Distinct = (unit, operands); non-trivial = both operands non-zero."
+    " Added after the seeded-fault rounds: word-alias operands (v + j(2^61-1), v + 2^32, v + 2^63, v + 2^64, v(2^64+1), ...) after the small pair, and the small pair again."
 )
 ASSUMPTIONS = ["vk.oracles.gf2m is trusted after its self-test (known primitive polynomials, GF(16) table, BCH generators)", "field instances/elements are cached singletons: monitors never mutate them"]
 REQUIRED = ["poly:a=q*b+r,deg r<deg b", "poly:gcd", "poly:lcm*gcd=a*b", "poly:mul", "field:mul", "field:add", "field:inverse", "field:pow", "field:primitive element order", "field:modulus irreducible", "field:trace", "field:conjugates", "field:minimal polynomial", "field:associative", "field:distributive"]
